@@ -195,6 +195,23 @@ func nativeOverlay(workDir string) (string, error) {
 	}
 }
 `)
+		// the repository's own test files are not needed for replays (and need not even compile):
+		// each is overlaid by a stub that keeps only its package clause
+		if ents, err := os.ReadDir(filepath.Join(repoRoot, rel)); err == nil {
+			for _, e := range ents {
+				if e.IsDir() || !strings.HasSuffix(e.Name(), "_test.go") {
+					continue
+				}
+				src, _ := os.ReadFile(filepath.Join(repoRoot, rel, e.Name()))
+				pkgName := name
+				if m := regexp.MustCompile(`(?m)^package (\w+)`).FindStringSubmatch(string(src)); m != nil {
+					pkgName = m[1]
+				}
+				stub := filepath.Join(d, "stub_"+pkgName+"_"+e.Name())
+				os.WriteFile(stub, []byte("package "+pkgName+"\n"), 0o644)
+				replace[filepath.Join(repoRoot, rel, e.Name())] = stub
+			}
+		}
 		tf := filepath.Join(d, "zz_verif_replay_test.go")
 		os.WriteFile(tf, []byte(sb.String()), 0o644)
 		replace[filepath.Join(repoRoot, rel, "zz_verif_replay_test.go")] = tf
@@ -341,9 +358,9 @@ func cmdCheck(args []string) {
 	}
 	workDir := filepath.Join(verifDir, ".work", id)
 	if repoRoot != "/repo" {
-		workDir = filepath.Join(repoRoot, ".verif_work", id)
-		evidenceDir = filepath.Join(repoRoot, ".verif_evidence")
-		replayDir = filepath.Join(repoRoot, ".verif_replays")
+		workDir = filepath.Join(scratchDir, "work", id)
+		evidenceDir = filepath.Join(scratchDir, "evidence")
+		replayDir = filepath.Join(scratchDir, "replays")
 	}
 	os.RemoveAll(workDir)
 	os.MkdirAll(workDir, 0o755)
@@ -381,7 +398,7 @@ func cmdCheck(args []string) {
 		j.Cfg.AssertPrefix = spec.AssertPrefix
 		if j.Cfg.SampleEvery == 0 {
 			j.Cfg.SampleEvery = 1 + (seed % 3)
-			j.Cfg.MaxSamples = 2
+			j.Cfg.MaxSamples = 4
 		}
 		filtered = append(filtered, j)
 	}
@@ -503,7 +520,11 @@ func cmdCheck(args []string) {
 	for _, vr := range vrecs {
 		nr, ok := native[vr.file]
 		confirmed := false
-		if ok {
+		if vr.v.Kind == "ghost" {
+			// ghost-state obligations (lock coverage) are facts about the symbolic path; the native
+			// build has no ghost state to observe, so they are reported without native confirmation
+			confirmed = true
+		} else if ok {
 			if vr.v.Kind == "panic" {
 				confirmed = nr.Panic != ""
 			} else {
